@@ -76,6 +76,20 @@ fn lazy_program(rng: &mut Rng) -> (Program, usize) {
             _ => G::Conde(vec![vec![G::Eq(q.clone(), c(rng))], vec![G::Eq(q.clone(), c(rng))]]),
         }
     };
+    if rng.chance(1, 6) {
+        // recursive closures whose recursive call is the first / only goal of its clause (no fresh
+        // block in front): every unfolding must still be a separate search step, in BFS and in DFS
+        let rel0 = RelDef { params: vec![900], body: vec![G::Cond(vec![vec![G::Eq(v(900), c(rng))], vec![G::RecCall(0, vec![v(900)])]])] };
+        let rel1 = RelDef { params: vec![910], body: vec![G::Cond(vec![vec![G::RecCall(2, vec![v(910)])], vec![G::Eq(v(910), c(rng))]])] };
+        let rel2 = RelDef { params: vec![920], body: vec![G::Cond(vec![vec![G::Eq(v(920), c(rng))], vec![G::RecCall(1, vec![v(920)])]])] };
+        let call = G::RecCall(if rng.chance(1, 2) { 0 } else { 1 }, vec![q.clone()]);
+        let body = match rng.below(3) {
+            0 => vec![G::Dfs(vec![vec![call]])],
+            1 => vec![call],
+            _ => vec![G::Conde(vec![vec![G::Dfs(vec![vec![call]])], vec![G::Loop(vec![vec![fin(rng)]])]])],
+        };
+        return (Program { rels: vec![rel0, rel1, rel2], qvars: vec![0], body }, 12);
+    }
     let body = match rng.below(7) {
         0 => vec![G::Loop(vec![vec![fin(rng)]])],
         1 => vec![G::Always, fin(rng)],
@@ -110,7 +124,7 @@ impl Check for C09 {
         ]
     }
     fn rule(&self) -> &'static str {
-        "Determinism: 'det-fd' (FD programs with >= 3 interacting constraints, where wake-up and labeling order could follow hash order), 'det-tree' (==/!= programs with hostile subsuming disequalities), 'det-search' (disjunction/recursion programs). Each program: the SAME Query value is run twice in one thread, the AST is rebuilt and run again, and it is run on 5 (quick) / 8 (thorough) fresh threads (fresh SipHash keys); 'xproc' additionally runs the program in 2 fresh PROCESSES. All answer sequences must be identical up to renaming of reified variables (first-occurrence order) and the order of constraints / pairs (L1). Differences are classified: equal after bringing every disequality to solved form (L2) = representation-only; equal as a multiset of ground-instance sets (L3) = order-only; otherwise semantic. Fused: after every exhausted stream next() is called 3 more times and must return None. Laziness: programs with infinitely many answers (loop, always, append with fresh arguments, never()/diverging dfs branch next to a producer) must deliver their first 12 answers within 2*10^6 engine steps (hook H1). Distinct = distinct program text; non-trivial = at least one answer."
+        "Determinism: 'det-fd' (FD programs with >= 3 interacting constraints, where wake-up and labeling order could follow hash order), 'det-tree' (==/!= programs with hostile subsuming disequalities), 'det-search' (disjunction/recursion programs). Each program: the SAME Query value is run twice in one thread, the AST is rebuilt and run again, and it is run on 5 (quick) / 8 (thorough) fresh threads (fresh SipHash keys); 'xproc' additionally runs the program in 2 fresh PROCESSES. All answer sequences must be identical up to renaming of reified variables (first-occurrence order) and the order of constraints / pairs (L1). Differences are classified: equal after bringing every disequality to solved form (L2) = representation-only; equal as a multiset of ground-instance sets (L3) = order-only; otherwise semantic. Fused: after every exhausted stream next() is called 3 more times and must return None. Laziness: programs with infinitely many answers (loop, always, append with fresh arguments, never()/diverging dfs branch next to a producer, directly and mutually recursive closures without a fresh block run breadth-first and inside dfs { }) must deliver their first 12 answers within 2*10^6 engine steps (hook H1). Distinct = distinct program text; non-trivial = at least one answer."
     }
     fn assumptions(&self) -> Vec<String> {
         vec!["fresh threads and fresh processes stand for 'a different hash seed' (std RandomState keys are per thread)".into(), "laziness is decided as bounded progress in engine steps, not wall-clock".into()]
